@@ -27,6 +27,7 @@ package pcs
 //@   ensures[untouched] err != nil ==> *out == old(*out)
 
 //@ func asn1OctetString(ext, field, size) (r, err)
+//@   at Unmarshal: requires[fresh-decode-target] pristine(arg1)
 //@   ensures[nil] ext == nil ==> err != nil
 //@   ensures[direct] ext != nil && len(ext.Value) == size ==> err == nil && r == ext.Value
 //@   ensures[size] err == nil && size >= 0 ==> len(r) == size
@@ -38,18 +39,25 @@ package pcs
 
 //@ func extractTcbExtension(tcbExtension, tcb) (err)
 //@   requires tcb != nil
+// every element is decoded into a fresh value: encoding/asn1 leaves what it does
+// not decode untouched, so a reused target would carry the previous element's
+// value into a wrongly typed element ("never a silently wrong value")
+//@   at Unmarshal: requires[fresh-decode-target] pristine(arg1)
 //@   assigns tcb.PCESvn, tcb.CPUSvn, tcb.CPUSvnComponents
 //@   ensures[components] err == nil ==> len(tcb.CPUSvnComponents) == 16 && fresh(tcb.CPUSvnComponents)
 
 //@ func extractAsn1SequenceTcbExtension(ext) (r, err)
+//@   at Unmarshal: requires[fresh-decode-target] pristine(arg1)
 //@   ensures[ok] err == nil ==> r != nil && len(r.CPUSvnComponents) == 16
 
 //@ func extractAsn1OctetStringExtension(name, extension, size) (r, err)
 
 //@ func extractSgxExtensions(extensions) (r, err)
+//@   at Unmarshal: requires[fresh-decode-target] pristine(arg1)
 //@   ensures[ok] err == nil ==> r != nil && len(extensions) >= 4
 
 //@ func PckCertificateExtensions(cert) (r, err)
+//@   at Unmarshal: requires[fresh-decode-target] pristine(arg1)
 //@   records pckext
 //@   requires cert != nil
 //@   ensures[ok] err == nil ==> r != nil && len(cert.Extensions) == 6
